@@ -23,6 +23,9 @@ def block(s):
 
 
 def cases(rng, tier):
+    # objects handed back by moves / shuffles, and copy / deepcopy / pickle duplicates of objects with built-up state
+    for l in core.childq_cases(rng, 60 if tier == "quick" else 400, ['dmax', 'dmaxperm']):
+        yield Case([l], {"kind": "object-from-move-or-copy"})
     N = 16 if tier == "quick" else 40
     for comp in gen.compositions(N):
         for rep in range(2):
@@ -65,11 +68,19 @@ def cases(rng, tier):
         first = rng.choice(["dmax", "kappa"])
         yield Case(["new 0 " + s, "o 0 " + first, "o 0 dmaxperm", "o 0 dmax"], {"kind": "warm-cache-then-permutant", "seq": s},
                    nontrivial=(comp[0] + comp[1] > 0 and sum(comp) >= 6))
+    # > 1000 residues (cheap regimes of the search: no neutrals / one charge type / >= 18 neutrals)
+    for comp in ((40, 25, 990),) if tier == "quick" else ((700, 350, 0), (0, 90, 960), (40, 25, 990), (1100, 3, 0), (5, 5, 1100)):
+        yield Case(block(gen.spell(gen.arrange(comp, rng), rng)), {"kind": "very-long"})
     for kind, s in gen.rand_seqs(rng, 60 if tier == "quick" else 600, 300):
         yield Case(block(s), {"kind": kind}, nontrivial=len(s) >= 6 and any(c in "KRDE" for c in s))
 
 
 def judge(case, reals, gens, specs):
+    if case.block and case.block[0].startswith("childq "):
+        if reals[0][0] != "childq":
+            return [("violation", 0, "%s -> %s" % (case.block[0], str(reals[0])[:300]))]
+        ok_c, why = core.judge_childq(reals[0])
+        return [] if ok_c else [("violation", 0, why)]
     out = []
     for i, (r, g, s) in enumerate(zip(reals, gens, specs)):
         if case.block[i].startswith("new "):
